@@ -120,9 +120,10 @@ TOp ==
             /\ UNCHANGED <<judged, tags>>
             /\ LET track == judged /\ ~via
                    \* the machine: the logged columns must be a sorting permutation of the current ones
-                   mlog == IF RCM_SortFails(m, op) \/ RCM_Ragged(m) THEN m ELSE [m EXCEPT !.col = Ev.priv.d]
+                   known == "d" \in DOMAIN Ev.priv /\ Len(Ev.priv.d) = Len(m.col)
+                   mlog == IF RCM_SortFails(m, op) \/ RCM_Ragged(m) \/ ~known THEN m ELSE [m EXCEPT !.col = Ev.priv.d]
                    mstep == IF RCM_SortFails(m, op) THEN Ev.err
-                            ELSE ~RCM_Ragged(m) /\ ~RCM_Ragged(mlog) /\ ~Ev.err
+                            ELSE known /\ ~RCM_Ragged(m) /\ ~RCM_Ragged(mlog) /\ ~Ev.err
                                  /\ RCI_SortOK(RCM_Abs(m), RCM_Abs(mlog), op.name, op.rev)
                IN IF ~track THEN /\ i' = i /\ m' = mlog /\ obj' = obj /\ via' = via
                                  /\ mok' = (mok /\ mstep /\ Bad(RCM_Obs(mlog), Ev.obs) = {})
@@ -141,7 +142,8 @@ TGrid ==
   /\ Consume("grid") /\ ln = 1
   /\ LET v == GridI_Verdict(Ev.n, Ev.nc, Ev.tr, Ev.nrows, Ev.items, Ev.missing)
          pay == IF Ev.payload = Ev.data THEN "ok" ELSE "payload"               \* the i-th position carries the i-th item
-     IN IF v = "ok" /\ pay = "ok"
+     IN IF Ev.raised THEN Reject("grid", [clause |-> "raised"])
+        ELSE IF v = "ok" /\ pay = "ok"
         THEN mok' = (/\ Ev.items = GridM_Items(Ev.n, Ev.nc, Ev.tr) /\ Ev.missing = GridM_Missing(Ev.n, Ev.nc, Ev.tr)
                      /\ Ev.nrows = GridM_NRows(Ev.n, Ev.nc) /\ Ev.figsize = GridM_Figsize(Ev.n, Ev.nc, Ev.axsize))
         ELSE Reject("grid", [clause |-> IF v # "ok" THEN v ELSE pay])
@@ -152,7 +154,8 @@ TComb ==
   /\ LET v == CombI_Verdict(Ev.lists, Ev.items)
          al == IF /\ Ev.keys = [j \in 1..Len(Ev.items) |-> Ev.items[j][1]]
                   /\ Ev.values = [j \in 1..Len(Ev.items) |-> Ev.items[j][2]] THEN "ok" ELSE "aligned"   \* keys(), values(), items() agree
-     IN IF v = "ok" /\ al = "ok"
+     IN IF Ev.raised THEN Reject("comb", [clause |-> "raised"])
+        ELSE IF v = "ok" /\ al = "ok"
         THEN mok' = (Ev.items = CombM_Items(Ev.lists) /\ Ev.keys = CombM_Keys(Ev.lists) /\ Ev.values = CombM_Values(Ev.lists))
         ELSE Reject("comb", [clause |-> IF v # "ok" THEN v ELSE al])
   /\ UNCHANGED <<obj, m, i, judged, via, tags>>
